@@ -986,7 +986,14 @@ impl Storage {
                             generated_by_block_number,
                             generated_by_tx_index,
                             _previous_tx,
-                        )) = self.get_transaction(&input.previous_output().tx_hash())
+                        )) = self
+                            .get_transaction(&input.previous_output().tx_hash())
+                            // A cell which was generated in a rolled back block is gone as well:
+                            // restoring it would leave a live cell at the height of the abandoned
+                            // block, even if its transaction is committed again at another height.
+                            .filter(|(generated_by_block_number, _, _)| {
+                                *generated_by_block_number < to_number
+                            })
                         {
                             let key = match ss.script_type {
                                 ScriptType::Lock => Key::CellLockScript(
